@@ -19,3 +19,11 @@ pub trait ReaderFrom {
     /// Reads and overwrites `self` from `reader`.
     fn read_from<R: Read>(&mut self, reader: &mut R) -> Result<()>;
 }
+
+/// Product of header dimensions read from an untrusted stream.
+///
+/// Returns `None` when the product does not fit in `usize`, which the
+/// readers report as inconsistent metadata instead of overflowing.
+pub(crate) fn checked_len(dims: &[usize]) -> Option<usize> {
+    dims.iter().try_fold(1usize, |acc, &d| acc.checked_mul(d))
+}
